@@ -60,6 +60,15 @@ pub fn main_entry(hooks: bool) {
             }
             Err(e) => machinery(&e),
         },
+        "c18-tier" => match checks::c18::roundtrip_tier() {
+            Ok(st) => {
+                println!("{} modules, {} decodes, {} violation signatures, {:.1}s", st.states, st.executed, st.violations.len(), st.wall_s);
+                for v in st.violations {
+                    println!("{}\n   {}", v.sig, &v.detail[..v.detail.len().min(900)]);
+                }
+            }
+            Err(e) => machinery(&e),
+        },
         "compile-tier" => match checks::c02::compile_tier(0) {
             Ok(st) => {
                 println!("{} modules, {} violation signatures, {:.1}s", st.states, st.violations.len(), st.wall_s);
